@@ -315,6 +315,10 @@ def gen_xpath_case(r):
         eb = (b"1+" * n)[:n - 1] + b"1"
         eb = eb[:n]
     eb = eb.replace(b"\x00", b"")   # C strings
+    # XPath compilation time grows quadratically with the length of the expression (60 kB: 16 s on the plain build, minutes under
+    # ASan): slow, not hung; keep generated expressions where they cost well under a second
+    if len(eb) > 6000:
+        eb = eb[:6000]
     src = r.choice(SOURCES).encode("utf-8")
     if r.chance(1, 6):
         src = byte_mutate(r, src).replace(b"\x00", b"")
@@ -424,3 +428,228 @@ def recursion_stylesheet(kind):
         return sty("<xsl:template match='/'><xsl:apply-templates select='*'/></xsl:template><xsl:template match='*'><xsl:call-template name='g'/></xsl:template>"
                    "<xsl:template name='g'><x><xsl:apply-templates select='.'/></x></xsl:template>")
     raise ValueError(kind)
+
+
+# ---------------------------------------------------------------------------------------------------------------------
+# structural stream: every XSLT element under every parent, with its required attributes present / missing / empty /
+# not a QName / an attribute value template
+
+XSLT_ELEMENTS = {
+    # name: (required attributes with a valid value, content when used as a child)
+    "apply-imports": ({}, ""), "apply-templates": ({}, ""), "attribute": ({"name": "a"}, "c"), "attribute-set": ({"name": "s"}, ""),
+    "call-template": ({"name": "t"}, ""), "choose": ({}, "<xsl:when test='1'>w</xsl:when>"), "comment": ({}, "c"), "copy": ({}, "c"),
+    "copy-of": ({"select": "."}, ""), "decimal-format": ({"name": "df"}, ""), "element": ({"name": "e"}, "c"), "fallback": ({}, "c"),
+    "for-each": ({"select": "*"}, "c"), "if": ({"test": "1"}, "c"), "import": ({"href": "@GOOD@"}, ""), "include": ({"href": "@GOOD@"}, ""),
+    "key": ({"name": "k", "match": "*", "use": "."}, ""), "message": ({}, "c"), "namespace-alias": ({"stylesheet-prefix": "a", "result-prefix": "b"}, ""),
+    "number": ({}, ""), "otherwise": ({}, "c"), "output": ({"method": "xml"}, ""), "param": ({"name": "pp"}, "c"), "preserve-space": ({"elements": "*"}, ""),
+    "processing-instruction": ({"name": "pi"}, "c"), "sort": ({"select": "."}, ""), "strip-space": ({"elements": "*"}, ""), "stylesheet": ({"version": "1.0"}, ""),
+    "template": ({"match": "r"}, "c"), "text": ({}, "c"), "transform": ({"version": "1.0"}, ""), "value-of": ({"select": "."}, ""),
+    "variable": ({"name": "vv"}, "c"), "when": ({"test": "1"}, "c"), "with-param": ({"name": "wp"}, "c"),
+}
+ATTR_VARIANTS = ("good", "missing", "empty", "badqname", "avt")
+STRUCT_NS = " xmlns:a='urn:a' xmlns:b='urn:b' xmlns:ext='urn:ext' xmlns:x='urn:x' extension-element-prefixes='ext'"
+STRUCT_SOURCE = "<r><i>1</i><i>2</i></r>"
+
+
+def xslt_element(name, variant, content=None, good_href="nonexistent.xsl"):
+    req, dflt = XSLT_ELEMENTS[name]
+    if variant == "good":
+        attrs = dict(req)
+    elif variant == "missing":
+        attrs = {}
+    else:
+        val = {"empty": "", "badqname": "1:bad name", "avt": "{1 div 0}"}[variant]
+        attrs = dict((k, val) for k in req) if req else {("select" if variant != "badqname" else "name"): val}
+    a = "".join(" %s='%s'" % (k, v.replace("@GOOD@", good_href)) for k, v in attrs.items())
+    body = dflt if content is None else content
+    return "<xsl:%s%s>%s</xsl:%s>" % (name, a, body, name) if body else "<xsl:%s%s/>" % (name, a)
+
+
+STRUCT_PARENTS = list(XSLT_ELEMENTS) + ["@top", "@lre", "@text", "@ext", "@toplre", "@topvariable", "@topparam"]
+
+
+def structural_stylesheet(parent, inner, good_href="nonexistent.xsl"):
+    """the element(s) `inner` as children of `parent`, the parent itself in a place where it is legal"""
+    def sheet(top="", body=""):
+        return ("<xsl:stylesheet version='1.0' xmlns:xsl='%s'%s>%s<xsl:template match='/'><o>%s<xsl:apply-templates select='r'/>"
+                "<xsl:call-template name='t'/></o></xsl:template><xsl:template name='t'><xsl:param name='wp'/>T</xsl:template></xsl:stylesheet>"
+                % (XSLNS, STRUCT_NS, top, body))
+    if parent == "@top":
+        return sheet(top=inner)
+    if parent == "@lre":
+        return sheet(body="<l>" + inner + "</l>")
+    if parent == "@text":
+        return sheet(body="<xsl:text>" + inner + "</xsl:text>")
+    if parent == "@ext":
+        return sheet(body="<ext:unknown>" + inner + "<xsl:fallback>f</xsl:fallback></ext:unknown>")
+    if parent == "@toplre":
+        return sheet(top="<x:data>" + inner + "</x:data>")
+    if parent == "@topvariable":
+        return sheet(top="<xsl:variable name='gv'>" + inner + "</xsl:variable>", body="<xsl:value-of select='$gv'/>")
+    if parent == "@topparam":
+        return sheet(top="<xsl:param name='gp'>" + inner + "</xsl:param>", body="<xsl:value-of select='$gp'/>")
+    p = xslt_element(parent, "good", content=inner if inner else " ", good_href=good_href)
+    if parent in ("attribute-set",):
+        return sheet(top=p, body="<e xsl:use-attribute-sets='s'/>")
+    if parent in ("decimal-format", "import", "include", "key", "namespace-alias", "output", "preserve-space", "strip-space", "template", "stylesheet", "transform"):
+        return sheet(top=p)
+    if parent in ("when", "otherwise"):
+        pre = "<xsl:when test='0'>n</xsl:when>" if parent == "otherwise" else ""
+        return sheet(body="<xsl:choose>" + pre + p + "</xsl:choose>")
+    if parent == "with-param":
+        return sheet(body="<xsl:call-template name='t'>" + p + "</xsl:call-template>")
+    if parent == "sort":
+        return sheet(body="<xsl:for-each select='*'>" + p + "x</xsl:for-each>")
+    if parent == "fallback":
+        return sheet(body="<ext:unknown>" + p + "</ext:unknown>")
+    if parent == "param":
+        return ("<xsl:stylesheet version='1.0' xmlns:xsl='%s'%s><xsl:template match='/'>%s<o><xsl:call-template name='t'/></o></xsl:template>"
+                "<xsl:template name='t'><xsl:param name='wp'/>T</xsl:template></xsl:stylesheet>" % (XSLNS, STRUCT_NS, p))
+    return sheet(body=p)
+
+
+def structural_matrix(good_href="nonexistent.xsl", version="1.0", variants=ATTR_VARIANTS):
+    """complete (parent, child, attribute variant) enumeration -> list of (key, stylesheet); version != 1.0 = forward-compatible mode"""
+    out = []
+    for parent in STRUCT_PARENTS:
+        for child in XSLT_ELEMENTS:
+            seen = set()
+            for v in variants:
+                c = xslt_element(child, v, good_href=good_href)
+                if c in seen:
+                    continue
+                seen.add(c)
+                st = structural_stylesheet(parent, c, good_href)
+                if version != "1.0":
+                    st = st.replace("version='1.0'", "version='%s'" % version, 1)
+                out.append(("%s/%s:%s%s" % (parent, child, v, "" if version == "1.0" else "@" + version), st))
+    return out
+
+
+def structural_pairs(r, n, good_href="nonexistent.xsl"):
+    """two children (any variants, optionally with text between them) under one parent"""
+    names = list(XSLT_ELEMENTS)
+    out = []
+    for _ in range(n):
+        parent = r.choice(STRUCT_PARENTS)
+        c1, c2 = r.choice(names), r.choice(names)
+        v1, v2 = r.choice(ATTR_VARIANTS), r.choice(ATTR_VARIANTS)
+        mid = r.choice(["", "", "t", " ", "<l/>"])
+        inner = xslt_element(c1, v1, good_href=good_href) + mid + xslt_element(c2, v2, good_href=good_href)
+        if r.chance(1, 4):      # nest the second inside the first
+            inner = xslt_element(c1, v1, content=xslt_element(c2, v2, good_href=good_href), good_href=good_href)
+        out.append(("%s/%s:%s+%s:%s" % (parent, c1, v1, c2, v2), structural_stylesheet(parent, inner, good_href)))
+    return out
+
+
+# ---------------------------------------------------------------------------------------------------------------------
+# error paths that must not leak (modules at import/include depth 1..3, failing document() loads, extension elements)
+# and reference cycles of length 1..5 through every lazily evaluated construct
+
+import os as _os
+
+MODULE_ERRORS = {
+    "badxpath": "<xsl:template match='zz'><xsl:value-of select='1 +'/></xsl:template>",
+    "badelem": "<xsl:template match='zz'><xsl:bogus/></xsl:template><xsl:nonsense/>",
+    "badattr": "<xsl:template match='zz'><xsl:text elements='*'>x</xsl:text></xsl:template>",
+    "misplaced": "<xsl:template match='zz'><l><xsl:with-param name='p'/></l></xsl:template>",
+    "badpattern": "<xsl:template match='//'>x</xsl:template>",
+    "dupvar": "<xsl:variable name='dv' select='1'/><xsl:variable name='dv' select='2'/>",
+    "malformed": None,      # not well-formed
+    "runtime": "<xsl:template match='i'><xsl:message terminate='yes'>stop</xsl:message></xsl:template>",
+    "runtime-throw": "<xsl:template match='i'><xsl:value-of xmlns:inj='urn:c03' select=\"inj:throw('XPathParserException')\"/></xsl:template>",
+    "none": "<xsl:template match='i'>I</xsl:template>",
+}
+
+
+def write_module_chains(moddir):
+    """files <how>_<err>_<depth>_<level>.xsl : level 1 imports/includes level 2 … the last level holds the error -> {(how, err, depth): url of level 1}"""
+    _os.makedirs(moddir, exist_ok=True)
+    heads = {}
+    for how in ("import", "include"):
+        for err, body in MODULE_ERRORS.items():
+            for depth in (1, 2, 3):
+                for level in range(depth, 0, -1):
+                    path = _os.path.join(moddir, "%s_%s_%d_%d.xsl" % (how, err, depth, level))
+                    if level == depth:
+                        txt = ("<xsl:stylesheet version='1.0' xmlns:xsl='%s'><xsl:template match='zz'><b></xsl:template>" % XSLNS) if body is None else sty(body)
+                    else:
+                        nxt = "file://" + _os.path.join(moddir, "%s_%s_%d_%d.xsl" % (how, err, depth, level + 1))
+                        txt = sty("<xsl:template match='level%d'>L</xsl:template>" % level, top="<xsl:%s href='%s'/>" % (how, nxt))
+                    with open(path, "w", encoding="utf-8") as f:
+                        f.write(txt)
+                heads[(how, err, depth)] = "file://" + _os.path.join(moddir, "%s_%s_%d_1.xsl" % (how, err, depth))
+    # modules that import / include each other in a cycle of length 1..3
+    for how in ("import", "include"):
+        for n in (1, 2, 3):
+            for k in range(1, n + 1):
+                nxt = "file://" + _os.path.join(moddir, "cycle_%s_%d_%d.xsl" % (how, n, k % n + 1))
+                with open(_os.path.join(moddir, "cycle_%s_%d_%d.xsl" % (how, n, k)), "w", encoding="utf-8") as f:
+                    f.write(sty("<xsl:template match='c%d'>C</xsl:template>" % k, top="<xsl:%s href='%s'/>" % (how, nxt)))
+            heads[(how, "cycle", n)] = "file://" + _os.path.join(moddir, "cycle_%s_%d_1.xsl" % (how, n))
+    with open(_os.path.join(moddir, "malformed.xml"), "w") as f:
+        f.write("<r><i></r>")
+    return heads
+
+
+def error_path_cases(moddir):
+    """-> list of (key, stylesheet, source, expect) ; expect in ('error', 'ok', 'any')"""
+    heads = write_module_chains(moddir)
+    out = []
+    src = "<r><i>1</i></r>"
+    for (how, err, depth), url in sorted(heads.items()):
+        main = sty("<xsl:template match='/'><o><xsl:apply-templates select='r/i'/></o></xsl:template>", top="<xsl:%s href='%s'/>" % (how, url))
+        out.append(("module:%s:%s:depth%d" % (how, err, depth), main, src, "ok" if err == "none" else "error"))
+    bad_xml = "file://" + _os.path.join(moddir, "malformed.xml")
+    for nm, expr in (("missing", "document('file:///nonexistent/c03.xml')"), ("malformed", "document('%s')" % bad_xml), ("empty-uri-of-stream", "document('')"),
+                     ("nodeset-arg", "document(/r/i)"), ("two-args", "document('x.xml', /r)"), ("in-key", "key('k', 'a')")):
+        top = "<xsl:key name='k' match='i' use=\"document('file:///nonexistent/c03.xml')/x\"/>" if nm == "in-key" else ""
+        out.append(("document:" + nm, sty("<xsl:template match='/'><o><xsl:value-of select=\"count(%s)\"/><xsl:copy-of select=\"%s\"/></o></xsl:template>" % (expr, expr), top=top), src, "any"))
+    ext = " xmlns:ext='urn:ext' extension-element-prefixes='ext'"
+    for nm, body in (("no-fallback", "<ext:unknown a='1'>x</ext:unknown>"), ("fallback", "<ext:unknown><xsl:fallback>f</xsl:fallback></ext:unknown>"),
+                     ("fallback-call", "<ext:unknown><xsl:fallback><xsl:call-template name='t'/></xsl:fallback></ext:unknown>"),
+                     ("fallback-fails", "<ext:unknown><xsl:fallback><xsl:message terminate='yes'>x</xsl:message></xsl:fallback></ext:unknown>"),
+                     ("nested", "<ext:a><ext:b><xsl:fallback>n</xsl:fallback></ext:b><xsl:fallback><ext:c/></xsl:fallback></ext:a>"),
+                     ("ext-function", "<xsl:value-of select='ext:nofunction(1)'/>"), ("element-available", "<xsl:if test=\"element-available('ext:unknown')\">y</xsl:if>")):
+        out.append(("extension:" + nm, sty("<xsl:template match='/'><o>%s</o></xsl:template><xsl:template name='t'>T</xsl:template>" % body, extra_attrs=ext), src, "any"))
+    return out
+
+
+def cycle_cases(moddir):
+    """reference cycles of length 1..5 -> list of (key, stylesheet, source, expect) ; expect 'error' or the expected text output"""
+    out = []
+    src = "<r><i>2</i><i>1</i></r>"
+    for n in range(1, 6):
+        nxt = lambda k: "v%d" % (k % n + 1)
+        forms = {
+            "variable-select": "".join("<xsl:variable name='v%d' select='$%s'/>" % (k, nxt(k)) for k in range(1, n + 1)),
+            "variable-body": "".join("<xsl:variable name='v%d'><x><xsl:value-of select='$%s'/></x></xsl:variable>" % (k, nxt(k)) for k in range(1, n + 1)),
+            "param-default": "".join("<xsl:param name='v%d' select='$%s + 1'/>" % (k, nxt(k)) for k in range(1, n + 1)),
+            "mixed": "".join(("<xsl:variable name='v%d' select='concat($%s, 1)'/>" if k % 2 else "<xsl:param name='v%d'><xsl:copy-of select='$%s'/></xsl:param>") % (k, nxt(k))
+                             for k in range(1, n + 1)),
+            "through-predicate": "".join("<xsl:variable name='v%d' select='/r/i[. = $%s]'/>" % (k, nxt(k)) for k in range(1, n + 1)),
+            "through-foreach-sort": "".join("<xsl:variable name='v%d'><xsl:for-each select='/r/i'><xsl:sort select='$%s'/><xsl:value-of select='.'/></xsl:for-each></xsl:variable>" % (k, nxt(k))
+                                            for k in range(1, n + 1)),
+        }
+        uses = {"value-of": "<xsl:value-of select='$v1'/>", "sort": "<xsl:for-each select='r/i'><xsl:sort select='$v1'/>x</xsl:for-each>",
+                "last": "<xsl:value-of select='$v%d'/>" % n, "avt": "<e a='{$v1}'/>", "with-param": "<xsl:call-template name='t'><xsl:with-param name='q' select='$v1'/></xsl:call-template>"}
+        for fn, top in forms.items():
+            for un, use in uses.items():
+                out.append(("cycle:%s:%d:%s" % (fn, n, un), sty("<xsl:template match='/'><o>%s</o></xsl:template><xsl:template name='t'><xsl:param name='q'/>T</xsl:template>" % use, top=top), src, "error"))
+        # a chain of the same length WITHOUT the closing reference must work
+        chain = "".join("<xsl:variable name='v%d' select='%s'/>" % (k, ("$v%d + 1" % (k + 1)) if k < n else "1") for k in range(1, n + 1))
+        out.append(("chain:variable:%d" % n, sty("<xsl:template match='/'><xsl:value-of select='$v1'/></xsl:template>", top="<xsl:output method='text'/>" + chain), src, str(n)))
+        # attribute sets using each other
+        asets = "".join("<xsl:attribute-set name='s%d' use-attribute-sets='s%d'><xsl:attribute name='a%d'>v</xsl:attribute></xsl:attribute-set>" % (k, k % n + 1, k) for k in range(1, n + 1))
+        for un, use in (("lre", "<o xsl:use-attribute-sets='s1'/>"), ("element", "<xsl:element name='o' use-attribute-sets='s1'/>"), ("copy", "<xsl:for-each select='r'><xsl:copy use-attribute-sets='s1'/></xsl:for-each>")):
+            out.append(("cycle:attribute-set:%d:%s" % (n, un), sty("<xsl:template match='/'>%s</xsl:template>" % use, top=asets), src, "error"))
+        # templates calling each other: no progress (must be reported) and with a decreasing counter (must finish)
+        calls = "".join("<xsl:template name='t%d'><xsl:param name='k'/><xsl:choose><xsl:when test='$k &gt; 0'><xsl:call-template name='t%d'><xsl:with-param name='k' select='$k - 1'/>"
+                        "</xsl:call-template></xsl:when><xsl:otherwise>done</xsl:otherwise></xsl:choose></xsl:template>" % (k, k % n + 1) for k in range(1, n + 1))
+        out.append(("cycle:templates-bounded:%d" % n, sty("<xsl:template match='/'><xsl:call-template name='t1'><xsl:with-param name='k' select='57'/></xsl:call-template></xsl:template>" + calls,
+                                                          top="<xsl:output method='text'/>"), src, "done"))
+        noprog = "".join("<xsl:template name='t%d'><xsl:call-template name='t%d'/></xsl:template>" % (k, k % n + 1) for k in range(1, n + 1))
+        out.append(("cycle:templates-unbounded:%d" % n, sty("<xsl:template match='/'><xsl:call-template name='t1'/></xsl:template>" + noprog), src, "error"))
+        modes = "".join("<xsl:template match='r' mode='m%d'><xsl:apply-templates select='.' mode='m%d'/></xsl:template>" % (k, k % n + 1) for k in range(1, n + 1))
+        out.append(("cycle:apply-templates-modes:%d" % n, sty("<xsl:template match='/'><xsl:apply-templates select='r' mode='m1'/></xsl:template>" + modes), src, "error"))
+    return out
